@@ -60,6 +60,10 @@ package main
 //@   assert [C18] dump_file_only_on_request: at Create#1: a.bdump && $name == a.bdumpFile
 //@   assert [C18] dump_precedes_execution_whatever_its_outcome: at Execute#1: a.bdump ==> g.dumps == old(g.dumps) + 1
 //@   assert [C18] executes_the_program_just_obtained: at Execute#1: $prog == prog
+//@   assert [C18] a_load_error_ends_the_run: at Execute#1: a.bload ==> g.loaderr == nil
+//@   assert [C18] the_library_writes_where_it_always_writes: at Execute#1: len($opts) == 2
+//@   assert [C18] parse_options_are_the_two_flags: at ParseFile#1: len($opts) == 2
+//@   assert [C18] load_options_are_the_one_flag: at LoadProg#1: len($opts) == 1
 //@   assert [C18] result_printed_only_on_request: at Printf#1: a.result
 //@   ensures [C18] success_means_executed_once: result == nil ==> g.execs == old(g.execs) + 1
 //@   ensures [C18] dump_exactly_when_requested: result == nil ==> g.dumps == old(g.dumps) + (a.bdump ? 1 : 0)
